@@ -212,6 +212,15 @@ pub fn inputs_for(s: &Subject, seed: u64, quick: bool) -> Vec<Input> {
         }
         let mut muts = structured_mutants(&payload, &marks, &mut rng, per_mark);
         muts.extend(random_mutants(&payload, &mut rng, if quick { 10 } else { 120 }));
+        if cfg!(miri) {
+            // The interpreter aborts the whole shard ("resource exhaustion") where a native build gets a failed
+            // allocation: inputs whose first defect is a declared length of millions of elements are left to the
+            // native builds (which run them in address-space-limited children).
+            muts.retain(|(b, _)| match model::decode(b, &shape, ver) {
+                Err(m) => !m.split(|c: char| !c.is_ascii_digit()).filter_map(|t| t.parse::<u128>().ok()).any(|n| n >= (1 << 22)),
+                Ok(_) => true,
+            });
+        }
         let hdr = super::c02::header(2, ver, false);
         for (i, (b, d)) in muts.into_iter().enumerate() {
             let entry = match i % 4 {
@@ -241,7 +250,8 @@ pub fn inputs_for(s: &Subject, seed: u64, quick: bool) -> Vec<Input> {
         // schema-section mutations of a valid file
         if let Outcome::Ok(file) = e.ops.save(&v, ver, Container::Plain) {
             let schema_end = file.len().saturating_sub(payload.len());
-            if schema_end > 17 {
+            // (schema sections declare lengths too: under the interpreter they are left to the native builds)
+            if schema_end > 17 && !cfg!(miri) {
                 for k in 0..if quick { 12 } else { 150 } {
                     let mut f = file.clone();
                     let p = 16 + rng.below(schema_end - 16);
@@ -354,6 +364,32 @@ pub fn judge(ctx: &mut Ctx, s: &Subject, inp: &Input) {
     }
 }
 
+fn contains_constrained_leaf(s: &Shape) -> bool {
+    match s {
+        Shape::Bool | Shape::Char | Shape::Enum(..) => true,
+        Shape::Seq(i, _) | Shape::Opt(i) | Shape::Array(_, i) => contains_constrained_leaf(i),
+        Shape::Map(k, v, _) | Shape::Res(k, v) => contains_constrained_leaf(k) || contains_constrained_leaf(v),
+        Shape::Tuple(v) => v.iter().any(contains_constrained_leaf),
+        Shape::Struct(_, f) => f.iter().any(|f| contains_constrained_leaf(&f.shape)),
+        _ => false,
+    }
+}
+
+/// Does the type contain a bulk-copyable run of elements with validity-constrained leaves (bool, char, enum
+/// tags)? For those, recorded finding #19 (bulk reads do not validate) is undefined behaviour, which the
+/// interpreter reports by aborting the whole shard: such subjects are left to the native builds.
+fn bulk_validity_risk(s: &Shape, ver: u32) -> bool {
+    match s {
+        Shape::Seq(i, _) | Shape::Array(_, i) => (model::fixed_size(i, ver).is_some() && contains_constrained_leaf(i)) || bulk_validity_risk(i, ver),
+        Shape::Opt(i) => bulk_validity_risk(i, ver),
+        Shape::Map(k, v, _) | Shape::Res(k, v) => bulk_validity_risk(k, ver) || bulk_validity_risk(v, ver),
+        Shape::Tuple(v) => v.iter().any(|x| bulk_validity_risk(x, ver)),
+        Shape::Struct(_, f) => f.iter().any(|f| bulk_validity_risk(&f.shape, ver)),
+        Shape::Enum(_, _, vs) => vs.iter().any(|v| v.fields.iter().any(|f| bulk_validity_risk(&f.shape, ver))),
+        _ => false,
+    }
+}
+
 pub fn run(ctx: &mut Ctx, reg: &Registry) {
     let subs = subjects(reg);
     let inproc = std::env::var("VH_INPROC").is_ok() || cfg!(miri);
@@ -396,6 +432,10 @@ pub fn run(ctx: &mut Ctx, reg: &Registry) {
             continue;
         }
         if ctx.type_filter.is_none() && !slow_build() && (s.index / ctx.nshards) % stride != (ctx.seed as usize) % stride {
+            continue;
+        }
+        if cfg!(miri) && bulk_validity_risk(&s.e.ops.shape(), s.e.version) {
+            ctx.count("types_left_to_native_builds_known_ub_finding");
             continue;
         }
         ctx.count("types");
